@@ -20,7 +20,7 @@ inductive E
   | intLit (t : IntTy) (n : Int)         -- int8(1)
   | f64Lit (n : Int)                     -- float64(1)
   | f32Lit (n : Int)
-  | numLit (s : String)                  -- json.Number("1")
+  | numLit (s : Bytes)                   -- json.Number("1")
   | toInt (t : IntTy) (e : E)            -- T(e)
   | toF64 (e : E)
   | toF32 (e : E)
